@@ -146,6 +146,9 @@ func (ex *Exec) forkAndMerge(fr *Frame, b *ssa.BasicBlock, c *Term, J *ssa.Basic
 	}
 	merged.fr.stopAt, merged.fr.stopK = outerStop, outerK
 	ex.merges++
+	if visits[nil] > 0 {
+		visits[nil]-- // a merged diamond does not lengthen the path
+	}
 	// continue at J with phis already bound
 	ex.runBlockNoPhi(merged.fr, J, merged.st, visits)
 }
